@@ -75,3 +75,14 @@ def tol_scale(V, ntri, K):
     L = maxnorm(V)
     e = K * EPS * max(ntri, 1)
     return {"L": L, "len": e * L, "area": e * L**2, "vol": e * L**3, "m4": e * L**4, "m5": e * L**5}
+
+
+def cross2(a, b):
+    a = np.asarray(a, dtype=float)
+    b = np.asarray(b, dtype=float)
+    return a[..., 0] * b[..., 1] - a[..., 1] * b[..., 0]
+
+
+def polygon_is_convex_ccw(xy):
+    xy = np.asarray(xy, dtype=float)
+    return bool(np.all(cross2(xy - np.roll(xy, 1, axis=0), np.roll(xy, -1, axis=0) - xy) > 0))
